@@ -220,6 +220,13 @@ func (c *checkSchema) ensureShortcutKeysAreValid(node *schema.ObjectNode) error 
 }
 
 func actualRootType(s, root *schema.Schema) json.Type {
+	return actualRootTypeOf(s, root, map[string]struct{}{})
+}
+
+// actualRootTypeOf visiting holds the names of the types on the current path: a
+// type list may lead back to a type being resolved (@node = @node | @leaf), that
+// alternative adds nothing to the set of possible types.
+func actualRootTypeOf(s, root *schema.Schema, visiting map[string]struct{}) json.Type {
 	t := s.RootNode().Type()
 	if t != json.TypeMixed {
 		return t
@@ -230,11 +237,16 @@ func actualRootType(s, root *schema.Schema) json.Type {
 		types := make(map[json.Type]struct{}, 2)
 		var tt json.Type
 		for _, tn := range n.GetTypes() {
+			if _, ok := visiting[tn]; ok {
+				continue
+			}
 			ss, err := root.Type(tn)
 			if err != nil {
 				return json.TypeMixed
 			}
-			tt = actualRootType(ss, root)
+			visiting[tn] = struct{}{}
+			tt = actualRootTypeOf(ss, root, visiting)
+			delete(visiting, tn)
 			types[tt] = struct{}{}
 		}
 		if len(types) == 1 { // all USER TYPES (example: @aaa | @bbb) have the same type (example: string)
